@@ -4,7 +4,7 @@ usage: tools/run_seeded.py [id ...]   -> writes seeded/<id>/result.json and prin
 import json, os, subprocess, sys, glob, shutil
 V = os.path.dirname(os.path.dirname(os.path.abspath(__file__)))
 ids = sys.argv[1:] or sorted(os.path.basename(p) for p in glob.glob(os.path.join(V, "seeded", "*")) if os.path.isdir(p))
-WT = "/tmp/seedrun"
+WT = "/tmp/seedrun_%d" % os.getpid()
 rows = []
 for sid in ids:
     d = os.path.join(V, "seeded", sid)
